@@ -313,7 +313,27 @@ func scenarioC08(r *Run) {
 		s := gen.Session(p, SessShape{})
 		return s, s.PDRs[0].EffUEIP()
 	}
+	// one run in three: two associations, each with a PFD table of its own (the same
+	// application ids, other filters); what one provisions says nothing about the other
+	peers := []*Peer{p}
+	appsOf := map[*Peer]map[string][]*refFlow{p: apps}
+	seqOf := map[*Peer]uint32{}
+	if r.Ch.Choose(3, "two-associations") == 1 {
+		q := r.AddPeer()
+		if q.AssociateRetry() == nil {
+			r.CheckNoPanics("C08")
+			return
+		}
+		peers = append(peers, q)
+		appsOf[q] = map[string][]*refFlow{}
+		r.Probe("two-associations-with-pfd-tables")
+	}
 	for step := 0; step < 4+r.Ch.Choose(9, "steps") && r.AgentAlive() && len(r.Violations) == 0; step++ {
+		if len(peers) > 1 {
+			appsOf[p], seqOf[p] = apps, lastPFDSeq
+			p = peers[r.Ch.Choose(len(peers), "peer")]
+			apps, lastPFDSeq = appsOf[p], seqOf[p]
+		}
 		switch r.Ch.Choose(4, "what") {
 		case 0: // PFD management
 			n := 1 + r.Ch.Choose(3, "napps")
